@@ -20,7 +20,7 @@ PLACEHOLDER = re.compile(r'##[A-Z_]+##')
 def isa_yaml(case):
     import yaml
     doc = {'description': case.get('description', 'verif vocab'), 'general': {'address_size': 16, 'endian': 'big', 'registers': list(case['regs']),
-                                                       'identifier': {'name': 'vocab-test', 'version': '1.2.3'}},
+                                                       'identifier': {'name': case.get('lang', 'vocab-test'), 'version': '1.2.3'}},
            'operand_sets': {'s0': {'operand_values': {'n': {'type': 'numeric', 'argument': {'size': 8, 'byte_align': True}}}}},
            'instructions': {case.get('keycase', {}).get(m, m): {'bytecode': {'value': i % 256, 'size': 8}} for i, m in enumerate(case['instrs'])}}
     if case['macros']:
@@ -50,7 +50,7 @@ def impl_vocab(case):
             if p.returncode != 0:
                 raise SystemExit(f'{target} generator failed: {p.stderr[-300:]}')
         # ---- VS Code: well-formedness
-        ext = os.path.join(vs, 'extensions', 'vocab-test')
+        ext = os.path.join(vs, 'extensions', case.get('lang', 'vocab-test'))
         texts = {}
         for root, _, files in os.walk(ext):
             for fn in files:
@@ -230,7 +230,7 @@ def gen_vocab_cases(rng, tier):
         rng.shuffle(instrs)
         macros = []
         if rng.random() < 0.6:
-            macros = [m for m in [rng.choice(['mac', 'dbl', 'pushall', 'ldm']) + rng.choice(['', '2', 'x', '_']) for _ in range(rng.randint(1, 3))]
+            macros = [m for m in [rng.choice(['mac', 'dbl', 'pushall', 'ldm']) + rng.choice(['', '2', 'x', '_', '.w']) for _ in range(rng.randint(1, 3))]
                       if m not in instrs]
             macros = sorted(set(macros))
         # a macro named like the stem of a dotted mnemonic (mov / mov.b)
@@ -255,6 +255,8 @@ def gen_vocab_cases(rng, tier):
             if rng.random() < 0.3:
                 keycase[nm] = rng.choice([nm.upper(), nm.capitalize()])
         out.append({'instrs': instrs, 'macros': macros, 'regs': regs, 'labels': labels, 'probes': probes, 'keycase': keycase,
+                    # the language name names the generated files: also names that begin with a dot or contain one
+                    'lang': rng.choice(['vocab-test', 'vocab-test', '.tiny8', 'cpu.v2', 'my_lang']),
                     'description': rng.choice(['verif vocab', 'Tiny 8-bit CPU <R&D build>, "rev. B"', "it's <b>bold</b> & more", 'plain'])})
     return out
 
